@@ -354,6 +354,15 @@ fn judge_decor(c: &Case, ex: &Exec) -> Vec<(String, String)> {
 }
 
 pub fn judge_faulted(ex: &Exec) -> Vec<(String, String)> {
+    if ex.reentries > 0 {
+        return match &ex.outcome {
+            Outcome::Panic(m) => vec![("panic-under-reentry".to_string(), m.clone())],
+            Outcome::Cap => vec![("no-return-under-reentry".to_string(), "step cap exceeded".to_string())],
+            // nothing failed, so an Err is as wrong as it is without any fault
+            Outcome::Err => vec![("err-without-fault".to_string(), "display returned Err although nothing failed (re-entrant sink/callback)".to_string())],
+            Outcome::Ok => vec![],
+        };
+    }
     match &ex.outcome {
         Outcome::Panic(m) => vec![("panic-under-fault".to_string(), m.clone())],
         Outcome::Cap => vec![("no-return-under-fault".to_string(), "step cap (10x the fault-free call count) exceeded".to_string())],
